@@ -144,6 +144,10 @@ def check_tags(model: Model, run: Run, folder: Folder) -> bool:
                 if isinstance(tag, ast.BoolOp) and isinstance(tag.op, ast.Or):
                     # `tag or <default>`: the default must fold
                     v = folder.fold(tag.values[-1], fi.module, None, k)
+                elif "tag" in fi.params() and any(isinstance(x, ast.Name) and x.id == "tag" for x in ast.walk(tag)):
+                    # `<helper>(tag, <default number>)`: the caller's tag when there is one (checked at that caller), else a
+                    # default - which is what the expression evaluates to with tag = None
+                    v = folder.fold(tag, fi.module, {"tag": None}, k)
                 else:
                     v = folder.fold(tag, fi.module, None, k)
                 good = isinstance(v, TagConst) and isinstance(v.tag_class, EnumConst) and v.tag_class.cls.endswith(".TagClass") and isinstance(v.num, int) and v.num >= 0
